@@ -60,6 +60,10 @@ func (p *MP4ChunkParser) Parse() error {
 			// Not a box (64-bit sizes and size 0 are not supported): without this, size 0 loops forever.
 			return fmt.Errorf("invalid box size %d at offset %d", size, cd.Start+nextBoxStart)
 		}
+		if nextBoxStart+size < nextBoxStart {
+			// 32-bit wrap-around would move the position backwards and parse the same boxes again forever.
+			return fmt.Errorf("box size %d at offset %d is too big", size, cd.Start+nextBoxStart)
+		}
 		currBox = string(p.buf[nextBoxStart+4 : nextBoxStart+8])
 		nextBoxStart += size
 		switch currBox {
